@@ -493,3 +493,14 @@ def run(chk, R, tier, seed):
             if isinstance(c.info, type(w)):
                 check_ctor_events(chk, c.info, rec, "synthetic")
     run_cases(chk, R, cases, preload=("quantity",), on_program=on_world)
+
+
+_run_generated = run
+
+
+def run(chk, R, tier, seed):          # noqa: F811
+    _run_generated(chk, R, tier, seed)
+    from .. import suitemon
+    if suitemon.wanted(tier):
+        # the repository's own tests as one more workload (DESIGN 9.7)
+        suitemon.suite_stage(chk, R, "C05")
